@@ -320,6 +320,8 @@ class JSExec(GoExec, SpecMixin, CallsMixin):
             r = a2 == b2
             if nans: r = z3.And(z3.Not(z3.Or(nans)), r)
             return r if op in ('===', '==') else z3.Not(r)
+        if op in ('<', '<=', '>', '>=') and (isinstance(a, JSUndef) or isinstance(b, JSUndef)):
+            return z3.BoolVal(False)          # undefined converts to NaN
         if op in ('<', '<=', '>', '>='):
             a2, b2, nans = self.cmp_nan(a, b)
             r = {'<': a2 < b2, '<=': a2 <= b2, '>': a2 > b2, '>=': a2 >= b2}[op]
@@ -541,6 +543,8 @@ class JSExec(GoExec, SpecMixin, CallsMixin):
         if e['computed']:
             i = self.ev(st, e['property'])
             if isinstance(obj, JSArr):
+                if getattr(obj, 'isnil', None) is not None and self.fork(st, obj.isnil):
+                    return UNDEF
                 return self.arr_read(st, obj, i, self.line(e))
             if isinstance(obj, JSTuple):
                 ic = z3.simplify(i)
@@ -549,6 +553,13 @@ class JSExec(GoExec, SpecMixin, CallsMixin):
         name = e['property']['name']
         if isinstance(obj, StrV) and name == 'length':
             return obj.len if self.mode != 'bv' else z3.Int2BV(obj.len, 64)
+        if isinstance(obj, JSArr) and getattr(obj, 'isnil', None) is not None and name in ('length', 'nilCheck'):
+            # the nil pointer object has no length; its nilCheck getter raises the nil dereference panic
+            if self.fork(st, obj.isnil):
+                if name == 'nilCheck':
+                    raise PanicEx('invalid memory address or nil pointer dereference')
+                return UNDEF
+            return obj.length if name == 'length' else UNDEF
         if isinstance(obj, JSArr) and name == 'length':
             return obj.length
         if isinstance(obj, JSObj):
@@ -992,6 +1003,11 @@ class JSExec(GoExec, SpecMixin, CallsMixin):
             return JSObj({'$array': arr, '$offset': off, '$length': ln, '$capacity': cap, '$nil': nil}, ctor='Slice', ref=fresh('obj'))
         if ty == 'slicetype':
             return JSObj({'$isArray': fresh(name + '.isArray', B), 'elem': JSObj({}, ctor='Type', ref=fresh('obj'))}, ctor='SliceType', ref=fresh('obj'))
+        if ty.startswith('arrptr'):     # pointer to an array of static length: the array itself, or the nil pointer object
+            a = self.make_param(st, name, 'arr')
+            st.pc.append(a.length == int(ty[6:]))
+            a.isnil = fresh(name + '.isnil', B)
+            return a
         if ty in ('arr', 'u8arr'):
             ident = fresh(name + '.id'); n = fresh(name + '.length')
             st.pc += [ident > 0, n >= 0, n <= MAXLEN]
